@@ -583,7 +583,8 @@ def r7_plurality_veto_shape(ctx):
               "the elimination test after the veto is not `if score <= 0: eliminated.append(c); break`")
     # skip voters whose ballot is exhausted; round 0 pre-eliminates zero-score candidates
     pre = [dv for st, dv in astx.defs_of(f.node, "eliminated_cands") if isinstance(dv, astx.LCOMP)]
-    good = len(pre) == 1 and [bool_key(Normalizer(None, inline=False).guard(t)) for t in pre[0].generators[0].ifs] == ["le(score, 0)"] and astx.u(pre[0].generators[0].iter).endswith(".scores.items()")
+    sc_var = astx.u(pre[0].generators[0].target.elts[1]) if len(pre) == 1 and isinstance(pre[0].generators[0].target, ast.Tuple) and len(pre[0].generators[0].target.elts) == 2 else "score"
+    good = len(pre) == 1 and [bool_key(Normalizer(None, inline=False).guard(t)) for t in pre[0].generators[0].ifs] == [f"le({sc_var}, 0)"] and astx.u(pre[0].generators[0].iter).endswith(".scores.items()")
     if good:
         st = [st for st, dv in astx.defs_of(f.node, "eliminated_cands") if dv is pre[0]][0]
         good = f"eq({f.params[2]}.round_number, 0)" in literals(Nl.conj(astx.path_condition(f.node, st, pm)))
